@@ -299,6 +299,7 @@ def render(found):
 SHAPE_FUNCTIONS = [
     ('host', 'Host', 'on_hci_disconnection_complete_event'),
     ('host', 'Host', 'on_transport_lost'),
+    ('host', 'Host', '_send_command'),            # the HCI command gate: acquired, released on every exit path
     ('host', 'DataPacketQueue', 'flush'),
     ('device', 'Device', 'host'),                 # the setter: order in which listeners are registered
     ('device', 'Device', 'on_disconnection'),
@@ -321,7 +322,7 @@ SHAPE_FUNCTIONS = [
 EFFECT_METHODS = {
     'emit', 'pop', 'clear', 'popitem', 'flush', 'abort', 'cancel', 'set_result', 'set_exception', 'on', 'once',
     'remove_listener', 'on_disconnection', 'on_session_end', 'on_hci_disconnection_complete_event',
-    'add_done_callback', 'set', '_check_queue',
+    'add_done_callback', 'set', '_check_queue', 'acquire', 'release',
 }
 
 
@@ -365,7 +366,9 @@ def _shape_stmts(stmts, path, out):
         elif isinstance(st, ast.Try):
             _shape_stmts(st.body, path + 'try>', out)
             for hd in st.handlers:
-                _shape_stmts(hd.body, path + 'except>', out)
+                cls = _txt(hd.type) if hd.type is not None else ''
+                out.append(f'{path}except[{cls}]')
+                _shape_stmts(hd.body, f'{path}except[{cls}]>', out)
             _shape_stmts(st.finalbody, path + 'finally>', out)
         elif isinstance(st, (ast.With, ast.AsyncWith)):
             for item in st.items:
